@@ -337,8 +337,12 @@ class SparseGrid(TrainingData, PickleSerializable):
             self.yi_map.setdefault(alpha, dict())
             self.yi_nan_map.setdefault(alpha, dict())
             self.error_map.setdefault(alpha, dict())
-            new_coords = list(self._expand_grid_coords(beta))
-            return new_coords, self._append_grid_points(new_coords[0])
+            new_coords, new_pts = [], {}  # only the grid point that has no model evaluation saved yet for this alpha
+            for coord in self._expand_grid_coords(beta):
+                if coord not in self.yi_map[alpha]:
+                    self._append_grid_points(coord, new_pts)
+                    new_coords.append(coord)
+            return new_coords, new_pts
 
         # Otherwise, refine the sparse grid
         for beta_old in self.betas:
